@@ -266,3 +266,137 @@ Proof.
   - intros k Hk. assert (Y : In k (klist g1)) by (rewrite Eg1; exact Hk). apply K1 in Y. apply Y.
   - intros x Hx. apply lremove_incl in Hx. rewrite Eg1 in Hx. exact Hx.
 Qed.
+
+(** ** the repaired source ([fx_nbr = true]): delete_connection forgets the two columns as neighbours
+    unless another connection still joins them, so the neighbour sets stay exact *)
+Lemma still_joined_iff g a b : S3a g -> In a (clist g) -> In b (clist g) -> a <> b -> (still_joined g a b = true <-> joined g a b).
+Proof.
+  intros S Ha Hb Nab. unfold still_joined. rewrite existsb_exists. split.
+  - intros [k [Hka Hkb]]. apply mem_In in Hkb. apply (s3_ex g S a Ha k) in Hka. apply (s3_ex g S b Hb k) in Hkb.
+    destruct Hka as [Hk Ma]. destruct Hkb as [_ Mb]. exists k. split; [exact Hk|].
+    destruct Ma as [Ma|Ma]; destruct Mb as [Mb|Mb]; try (exfalso; apply Nab; congruence); [left|right]; split; assumption.
+  - intros [k [Hk M]]. exists k. split; [apply (proj2 (s3_ex g S a Ha k))|apply mem_In; apply (proj2 (s3_ex g S b Hb k))]; (split; [exact Hk|]); destruct M as [[M0 M1]|[M0 M1]]; auto.
+Qed.
+Lemma delete_connection_closed_repaired g key g' : fx_nbr (fx g) = true -> delete_connection g key = Ok g' ->
+  exists k, kget g key = Some k /\ In k (klist g) /\
+    g' = (if still_joined (dk_base g key k) (k0 g k) (k1 g k) then dk_base g key k
+          else nbr_discard (nbr_discard (dk_base g key k) (k0 g k) (k1 g k)) (k1 g k) (k0 g k)).
+Proof.
+  intros Fx H. unfold delete_connection in H. destruct (kget g key) as [k|] eqn:E; [|discriminate]. exists k. split; [reflexivity|].
+  destruct (ccon_remove g (k0 g k) k) as [g1|] eqn:R1; cbn [bind] in H; [|discriminate].
+  apply ccon_remove_ok in R1. destruct R1 as [In1 ->].
+  match type of H with context [ccon_remove ?G ?c ?x] => destruct (ccon_remove G c x) as [g2|] eqn:R2 end; cbn [bind] in H; [|discriminate].
+  apply ccon_remove_ok in R2. destruct R2 as [_ ->]. revert H. gs. rewrite Fx.
+  destruct (mem k (klist g)) eqn:M; [|discriminate]. apply mem_In in M. intro H. inversion H as [Eg]. split; [exact M|]. reflexivity.
+Qed.
+Lemma delete_connection_S3b_repaired g key g' : fx_nbr (fx g) = true -> InvS g -> S3b g -> delete_connection g key = Ok g' -> S3b g'.
+Proof.
+  intros Fx IS [Q1 Q2] H. destruct (delete_connection_closed_repaired g key g' Fx H) as [k [E [M Eg]]]. clear H. revert Eg.
+  pose proof (dk_base_invS g key k IS E M) as IB. set (gb := dk_base g key k) in *.
+  set (a := k0 g k) in *. set (b := k1 g k) in *.
+  destruct (s3_ends g (i_s3a g IS) k M) as [Ha Hb]. pose proof (s3_neq g (i_s3a g IS) k M) as Nab. fold a b in Ha, Hb, Nab.
+  pose proof (dl_nodup _ _ _ (i_s1k g IS)) as NDk.
+  assert (Jb : forall c d, joined gb c d <-> exists k', In k' (klist g) /\ k' <> k /\ ((k0 g k' = c /\ k1 g k' = d) \/ (k0 g k' = d /\ k1 g k' = c))).
+  { intros c d. unfold joined, gb, dk_base. gs. change (k0 (set_klist _ _)) with (k0 g). change (k1 (set_klist _ _)) with (k1 g).
+    split; intros [k' X]; exists k'; [destruct X as [X Y]; apply (In_lremove _ _ _ NDk) in X; tauto|destruct X as [X [Y Z]]; split; [apply (In_lremove _ _ _ NDk); tauto|exact Z]]. }
+  assert (Jg : forall c d, joined g c d <-> joined gb c d \/ ((c = a /\ d = b) \/ (c = b /\ d = a))).
+  { intros c d. rewrite Jb. unfold joined. split.
+    - intros [k' [Hk' X]]. destruct (Pos.eq_dec k' k) as [->|Nk]; [right; destruct X as [[X0 X1]|[X0 X1]]; [left|right]; split; symmetry; assumption|left; exists k'; tauto].
+    - intros [[k' [Hk' [_ X]]]|X]; [exists k'; tauto|exists k; split; [exact M|destruct X as [[X0 X1]|[X0 X1]]; [left|right]; split; symmetry; assumption]]. }
+  assert (Ecl : clist gb = clist g) by reflexivity.
+  assert (Ecb : forall x, cnb gb x = cnb g x) by reflexivity.
+  destruct (still_joined gb a b) eqn:SJ; intro H; subst g'.
+  - apply (still_joined_iff gb a b (i_s3a gb IB)) in SJ; [|rewrite Ecl; assumption..|exact Nab].
+    assert (SJ' : joined gb b a) by (destruct SJ as [k' [X Y]]; exists k'; split; [exact X|tauto]).
+    split; [exact Q1|].
+    intros c Hc d. change (In d (cnb g c) <-> joined gb c d). rewrite (Q2 c Hc d), Jg. split; [|tauto]. intros [X|[[-> ->]|[-> ->]]]; assumption.
+  - assert (NJ : ~ joined gb a b) by (intro X; apply (still_joined_iff gb a b (i_s3a gb IB)) in X; [congruence|rewrite Ecl; assumption..|exact Nab]).
+    assert (NJ' : ~ joined gb b a) by (intro X; apply NJ; destruct X as [k' [X Y]]; exists k'; split; [exact X|tauto]).
+    set (MM := fset (fset (cnbr g) a (sdiscard (cnb g a) b)) b (sdiscard (fget [] (fset (cnbr g) a (sdiscard (cnb g a) b)) b) a)).
+    assert (EG : forall c, cnb (nbr_discard (nbr_discard gb a b) b a) c = fget [] MM c) by reflexivity.
+    assert (Cn : forall c d, In d (fget [] MM c) <-> In d (cnb g c) /\ ~ ((c = a /\ d = b) \/ (c = b /\ d = a))).
+    { intros c d. unfold MM. rewrite fget_fset. destruct (Pos.eqb_spec c b) as [->|Ncb].
+      - rewrite fget_fset_neq by (intro X; apply Nab; symmetry; exact X). fold (cnb g b).
+        rewrite (In_sdiscard _ _ _ (Q1 b Hb)). split; [intros [X Y]; split; [exact X|intros [[Z _]|[_ Z]]; [apply Nab; symmetry; exact Z|exact (Y Z)]]|].
+        intros [X Y]. split; [exact X|]. intro Z. apply Y. right. split; [reflexivity|exact Z].
+      - rewrite fget_fset. destruct (Pos.eqb_spec c a) as [->|Nca].
+        + rewrite (In_sdiscard _ _ _ (Q1 a Ha)). split; [intros [X Y]; split; [exact X|intros [[_ Z]|[Z _]]; [exact (Y Z)|exact (Nab Z)]]|].
+          intros [X Y]. split; [exact X|]. intro Z. apply Y. left. split; [reflexivity|exact Z].
+        + fold (cnb g c). split; [intro X; split; [exact X|intros [[Z _]|[Z _]]; contradiction]|tauto]. }
+    split.
+    + intros c Hc. rewrite EG. unfold MM. rewrite fget_fset. destruct (Pos.eqb_spec c b) as [->|Ncb].
+      * apply NoDup_sdiscard. rewrite fget_fset_neq by (intro X; apply Nab; symmetry; exact X). exact (Q1 b Hb).
+      * rewrite fget_fset. destruct (Pos.eqb_spec c a) as [->|Nca]; [apply NoDup_sdiscard; exact (Q1 a Ha)|exact (Q1 c Hc)].
+    + intros c Hc d. rewrite EG, Cn, (Q2 c Hc d). change (joined (nbr_discard (nbr_discard gb a b) b a) c d) with (joined gb c d).
+      rewrite Jg. split; [intros [[X|X] Y]; [exact X|contradiction]|].
+      intro X. split; [left; exact X|]. intros [[-> ->]|[-> ->]]; contradiction.
+Qed.
+
+Lemma S5n_dk g key k N : S5n g -> S5n (set_cnbr (dk_base g key k) N).
+Proof. intro D. exact D. Qed.
+Theorem delete_connection_inv_repaired g key g' : fx_nbr (fx g) = true -> Inv g -> llist g = [] -> delete_connection g key = Ok g' -> Inv g'.
+Proof.
+  intros Fx [IS [D1 D2 D3]] Hlay H. constructor; [eapply delete_connection_invS; eauto|].
+  pose proof (delete_connection_S3b_repaired g key g' Fx IS D1 H) as D1'.
+  destruct (delete_connection_closed_any g key g' H) as [k [N [_ [_ [_ [-> _]]]]]].
+  constructor; [exact D1'|apply S5n_dk; exact D2|]. apply (S6_no_layers g); auto. apply IS.
+Qed.
+Lemma delete_conns_repaired ks : forall g g', fx_nbr (fx g) = true -> InvS g -> S3b g -> delete_conns g ks = Ok g' ->
+  S3b g' /\ fx g' = fx g.
+Proof.
+  induction ks as [|k r IH]; cbn [delete_conns]; intros g g' Fx I D H; [inversion H; subst; auto|].
+  destruct (delete_connection g (kkey g k)) as [g1|] eqn:E; cbn [bind] in H; [|discriminate].
+  pose proof (delete_connection_invS g _ g1 I E) as I1.
+  pose proof (delete_connection_S3b_repaired g _ g1 Fx I D E) as D1.
+  destruct (delete_connection_closed_any g _ g1 E) as [k' [N [_ [_ [_ [Eg1 _]]]]]].
+  assert (Fx1 : fx g1 = fx g) by (rewrite Eg1; reflexivity).
+  destruct (IH g1 g' ltac:(rewrite Fx1; exact Fx) I1 D1 H) as [X Y]. split; [exact X|congruence].
+Qed.
+(** delete_column in the repaired source: once its connections are gone the column has no neighbour left *)
+Lemma delete_column_S3b_repaired g name g' : fx_nbr (fx g) = true -> InvS g -> S3b g -> delete_column g name = Ok g' -> S3b g'.
+Proof.
+  intros Fx IS D H. unfold delete_column in H. destruct (cget g name) as [c|] eqn:E; [|discriminate].
+  destruct (delete_conns g (filter (col_in_conn g c) (klist g))) as [g1|] eqn:E1; cbn [bind] in H; [|discriminate].
+  assert (X1 : forall k, In k (filter (col_in_conn g c) (klist g)) -> In k (klist g)) by (intros k Hk; apply filter_In in Hk; apply Hk).
+  assert (X2 : NoDup (filter (col_in_conn g c) (klist g))) by (apply NoDup_filter; apply (dl_nodup _ _ _ (i_s1k g IS))).
+  destruct (delete_conns_spec _ g g1 IS X1 X2 E1) as [I1 [[C [D' [L [NB [Eg1 _]]]]] K1]].
+  destruct (delete_conns_repaired _ g g1 Fx IS D E1) as [D1 _]. clear X1 X2.
+  destruct (s1_cget g name c (i_s1 g IS) E) as [Hc Hname].
+  assert (Hc1 : In c (clist g1)) by (rewrite Eg1; exact Hc).
+  (* no remaining connection involves c, so c has no neighbour *)
+  assert (Kc : forall k, In k (klist g1) -> k0 g1 k <> c /\ k1 g1 k <> c).
+  { intros k Hk. apply K1 in Hk. destruct Hk as [A B].
+    assert (X : col_in_conn g c k = false).
+    { destruct (col_in_conn g c k) eqn:Y; [|reflexivity]. exfalso. apply B. apply filter_In. auto. }
+    unfold col_in_conn in X. apply orb_false_elim in X. destruct X as [Y1 Y2].
+    apply Pos.eqb_neq in Y1. apply Pos.eqb_neq in Y2. rewrite Eg1. auto. }
+  assert (Enb : cnb g1 c = []).
+  { destruct (cnb g1 c) as [|d r] eqn:Ed; [reflexivity|]. exfalso.
+    assert (J : joined g1 c d) by (apply (s3b_ex g1 D1 c Hc1 d); rewrite Ed; left; reflexivity).
+    destruct J as [k [Hk M]]. destruct (Kc k Hk) as [A B]. destruct M as [[M _]|[_ M]]; contradiction. }
+  rewrite Enb in H. cbn [nbrs_forget bind] in H.
+  destruct (nodes_forget g1 (cns g1 c) c) as [g3|] eqn:E3; cbn [bind] in H; [|discriminate].
+  destruct (nodes_forget_closed _ _ _ _ E3) as [mn [_ Eg3]].
+  revert H. gs. destruct (mem c (clist g3)) eqn:M; [|discriminate]. intro H. inversion H; subst g'; clear H. subst g3.
+  destruct D1 as [Q1 Q2]. pose proof (dl_nodup _ _ _ (s1_c g1 (i_s1 g1 I1))) as NDc.
+  split.
+  - intros d Hd. revert Hd. gs. intro Hd. apply lremove_incl in Hd. exact (Q1 d Hd).
+  - intros d Hd e. revert Hd. gs. intro Hd. apply lremove_incl in Hd. exact (Q2 d Hd e).
+Qed.
+Theorem delete_column_inv_repaired g name g' : fx_nbr (fx g) = true -> Inv g -> llist g = [] -> delete_column g name = Ok g' -> Inv g'.
+Proof.
+  intros Fx [IS [D1 D2 D3]] Hlay H. destruct (delete_column_core g name g' IS H) as [A [_ [C D]]].
+  constructor; [exact A|]. constructor; [eapply delete_column_S3b_repaired; eauto|auto|auto].
+Qed.
+
+(** either source variant *)
+Theorem delete_column_inv_any g name g' : Inv g -> llist g = [] -> delete_column g name = Ok g' -> Inv g'.
+Proof.
+  intros I Hlay H. destruct (fx_nbr (fx g)) eqn:Fx; [eapply delete_column_inv_repaired|eapply delete_column_inv]; eauto.
+Qed.
+Theorem delete_connection_inv_any g key g' : Inv g -> (fx_nbr (fx g) = true \/ joined_otherwise g key) -> llist g = [] ->
+  delete_connection g key = Ok g' -> Inv g'.
+Proof.
+  intros I J Hlay H. destruct (fx_nbr (fx g)) eqn:Fx; [eapply delete_connection_inv_repaired; eauto|].
+  destruct J as [J|J]; [discriminate|]. eapply delete_connection_inv; eauto.
+Qed.
